@@ -191,7 +191,9 @@ def mfpCompanions (modulePath : Option Bytes) : List Bytes :=
       let second :=
         if b'.contains cDash then
           match lastDash first with
-          | some k => first.take k ++ dotSet
+          | some k =>
+            -- `".set"` and its NUL must fit `smp_filename[XMP_MAXPATH]`, otherwise the name is left alone
+            if k + 5 ≤ Gen.OpenSites.mfpBufSize then first.take k ++ dotSet else first
           | none => first
         else first
       [first, second]
